@@ -998,3 +998,7 @@ mod tests {
         .collect()
     }
 }
+
+#[cfg(kani)]
+#[path = "/verif/kani/arrow-arith/boolean.rs"]
+mod verif_kani;
